@@ -2,9 +2,11 @@
 from reg._common import COMMON_ASSUME
 
 ENTRY = {
-    'lean_files': ['Tables/C12.lean', 'Props/C12.lean', 'Props/C12More.lean'],
-    'lemma_files': ['Lemmas/TriDeriv.lean', 'Model/TriDeriv.lean', 'Lemmas/Green.lean', 'Model/Basic.lean', 'Model/Curve.lean', 'Model/Area.lean'],
+    'lean_files': ['Tables/C12.lean', 'Props/C12.lean', 'Props/C12More.lean', 'Tables/C12Quad.lean', 'Props/C12Quad.lean'],
+    'lemma_files': ['Model/Quadrature.lean', 'Lemmas/Quadrature.lean', 'Lemmas/QuadratureReal.lean', 'Lemmas/Deriv.lean', 'Lemmas/TriDeriv.lean', 'Model/TriDeriv.lean', 'Lemmas/Green.lean', 'Model/Basic.lean', 'Model/Curve.lean', 'Model/Area.lean'],
     'script': 'props/c12.py',
+    'scripts': ['props/c12.py', 'props/c12q.py'],
+    'extractors': ['extract_quadpack.py'],
     # the pure-Python compute_length needs SciPy, which only the tooling interpreter has
     'python': {'pure': '/usr/local/bin/python3-vt'},
     'rule': 'area: complete quadratic-form table of one edge on pairs of unit nets (x = scale*e_i, y = e_j; exact) for edge degrees '
@@ -14,8 +16,9 @@ ENTRY = {
             'composite Gauss-Legendre reference with self-estimated error (tolerance 2^-24 relative), chord/polygon bounds, '
             'additivity over subdivision; non-trivial = net not all zero; distinct by hash of exact inputs',
     'partial': [
-                "length: the accuracy of the adaptive quadrature (QUADPACK dqagse / scipy.integrate.quad) is external and only cross-checked numerically (additivity under subdivision, invariance under elevation, closed forms for lines / parabolas); proved: the integrand identity vec_size^2 = |B'(s)|^2 (C11.hodograph_is_derivative)",
-                'area: proved for every net - the shoelace tables are the Green integral (edge degrees 1..4), the error branches; Props/C12More: the area of a triangle of degree 1..4 computed from its three edges equals the formal double integral of the Jacobian determinant (triangle_area_is_det_integral_1..4), invariance under elevation of an edge (2..4 nodes), additivity under subdivision of an edge (2..5 nodes); a degree-independent formal Green theorem is not given (edges of degree >= 5 raise in the code anyway)',
+                "length: the non-adaptive core of the quadrature is inside the model (Model/Quadrature.lean: dqk21 with its running variables, the first-step exit test of dqagse, the integrand |B'(s)| with sqrt as a parameter) and tied to the source: the Gauss-Kronrod tables, loop bodies, call shapes and tolerances are extracted from quadpack.f90 / curve.f90 on every run (harness/extract_quadpack.py) and Tables/C12Quad proves by kernel evaluation that the extracted 21-point rule reproduces the moments up to 10^-33 for degree <= 31 (embedded Gauss rule: 2*10^-33 for degree <= 19), weights positive, nodes ordered; Props/C12Quad: the rule is linear and affine-invariant, exact on polynomials of degree <= 31 up to that residual, the raw error estimate vanishes on degree <= 19, the transcribed dqagse accepts after the first step there, first_step_polynomial_speed: for curves whose speed is a polynomial the first step returns the exact length up to eps/2 * sum|q_k| (also stated against Mathlib's interval integral over the reals); props/c12q.py ties Curve.length to the model on lines and Pythagorean-hodograph curves (degree <= 11) in both configurations",
+                "still external: dqagse's bisection loop, dqelg (epsilon extrapolation), dqpsrt and the 1.5-power rescaling of the error estimate (a parameter with pow15 t <= t on [0,1]); for curves whose speed is not polynomial the accuracy of the adaptive quadrature is cross-checked numerically only (additivity under subdivision, invariance under elevation, closed forms); SciPy's QUADPACK is trusted to be the same rule (the pure configuration is consistent with that)",
+                'area: proved for every net - the shoelace tables are the Green integral (edge degrees 1..4), the error branches; Props/C12More: the area of a triangle of degree 1..4 computed from its three edges equals the formal double integral of the Jacobian determinant, invariance under elevation of an edge (2..4 nodes), additivity under subdivision of an edge (2..5 nodes); a degree-independent formal Green theorem is not given (edges of degree >= 5 raise in the code anyway)',
     ],
     'trusted_base': ['modelled not verified: shoelace_for_area / compute_area in triangle_helpers.py and triangle.f90, Triangle.area, '
                      'CurvedPolygon.area glue; compute_length closed-form branches and integrand; trusted, not modelled: QUADPACK '
